@@ -88,13 +88,87 @@ def check_fl(cases, out, label):
                       % str(meta[i])[:800], case=meta[i])
 
 
+def check_series(cols, out, label):
+    """FL through fit_offsets.get_series_time_offsets: what it RETURNS (indices, offsets, mapping) must satisfy
+    the property - every interval that has crossings has an offset, residual sums vanish, no perturbation lowers
+    the spread (exact fractions) - on interval collections that include exact ties of the initial level among the
+    top intervals.  Correspondence: the exact model of find_offsets on the returned mapping gives the returned
+    offsets up to the common shift."""
+    from harness.props import c08 as P8
+    strs, meta = [], []
+    for n_case, (series, grid, _planted) in enumerate(cols):
+        out.evaluations += 1
+        firsts = sorted((float(H[0]) for _, H in series), reverse=True)
+        tied = len(firsts) >= 2 and firsts[0] == firsts[1]
+        out.count('FLS:%s' % ('tie for the highest initial level' if tied else 'no tie at the top'))
+        case = dict(level='FLS', grid=grid, series=[[t.tolist(), H.tolist()] for t, H in series])
+        res = P8.run_impl(series, grid)
+        if res[0] == 'err':
+            out.count('FLS-error-' + res[1])
+            body, _ = P8.main_body(series, grid)
+            if body is not None and len(body) >= 2:
+                out.violation('oracle', 'get_series_time_offsets raised %s although %d intervals overlap' % (res[2], len(body)), case=case)
+            continue
+        _, idx, offs, hm = res
+        in_map = {s for seq in hm.values() for s, _ in seq}
+        if len(idx) != len(offs) or len(set(idx)) != len(idx) or set(idx) != in_map:
+            out.violation('oracle', 'get_series_time_offsets: intervals with offsets %s (%d offsets) differ from the intervals '
+                          'with crossings %s' % (sorted(idx), len(offs), sorted(in_map)), case=case)
+            continue
+        x = {s: Fraction(v) for s, v in zip(idx, offs)}
+        tol = 1e-9 * scale_of(hm)
+        total, resid = GO.spread(hm, x)
+        worst = max([abs(r) for r in resid.values()] + [Fraction(0)])
+        nrows = sum(len(seq) for seq in hm.values() if len(seq) >= 2)
+        if worst > Fraction(tol) * 100 * max(1, nrows):
+            wi = max(resid, key=lambda s_: abs(resid[s_]))
+            out.violation('oracle', 'get_series_time_offsets: the residuals of interval %d against the master curve sum to '
+                          '%.6g, not 0 (offsets %s for intervals %s%s)' % (wi, float(resid[wi]), offs, idx,
+                                                                           '; two intervals start from the same highest level' if tied else ''),
+                          case=case)
+        else:
+            rng = C.rng_for(n_case, PROP, 'perturb-series')
+            for _ in range(4):
+                y = {s: v + Fraction(rng.randrange(-64, 65), 64) * (1 if rng.random() < 0.7 else 0) for s, v in x.items()}
+                ty, _ = GO.spread(hm, y)
+                if ty < total - Fraction(tol) * Fraction(tol):
+                    out.violation('oracle', 'get_series_time_offsets: a perturbation of the returned offsets lowers the squared '
+                                  'spread: %.12g -> %.12g' % (float(total), float(ty)), case=case)
+                    break
+        if tied and len(idx) >= 3 and sum(1 for s in idx if float(series[s][1][0]) == firsts[0]) >= 2:
+            out.nontriv(('fls', str(case['series'])[:400]))
+        if n_case % 2 and len(cols) > 1:
+            continue                # (the exact model is slow on epoch-sized crossing values: every second case; C08 runs its own correspondence on get_series_time_offsets)
+        ids = sorted(idx)
+        rel = [float(x[s] - x[ids[-1]]) for s in ids]
+        strs.append('(%s, %s, %s)' % (hm_lit(hm), C.cQ(1e-7 * scale_of(hm)), C.cQs(rel)))
+        meta.append(case)
+    bad, errs, _ = C.run_case_shards(
+        PROP, label, PRE + 'Close Scope Q_scope.\n', 'head_mapping * Q * list Q',
+        'fun c => match c with (hm, tol, rel) => match find_offsets hm with '
+        '| Ok (_, offs) => close_enough tol offs rel | Err _ => false end end', strs, shard=6)
+    out.corr_errors += errs
+    for i in bad:
+        out.violation('corr', 'model find_offsets on the returned mapping <> offsets returned by get_series_time_offsets '
+                      '(up to the common shift)', case=meta[i])
+
+
 def check_cl(out, seed, n):
     """Tables written by rise / recession satisfy the zero-residual-sum condition."""
     from harness import curves_common as CC
-    for k in range(n):
-        r = CC.build_dataset(PROP, C.rng_for(seed, PROP, 'cl', k), steps=('rise', 'recession'))
+    # every third plan: two recessions start from exactly the same highest level (a tie for the reference interval),
+    # with noise on the later samples (without it the tied pieces are congruent and have the same offset)
+    check_cl_plans([CC.make_plan(C.rng_for(seed, PROP, 'cl', k), tie_top=(k % 3 == 1), noise=(k % 3 == 1))
+                    for k in range(n)], out)
+
+
+def check_cl_plans(plans, out):
+    from harness import curves_common as CC
+    for plan in plans:
+        r = CC.build_from_plan(PROP, plan, steps=('rise', 'recession'))
         out.evaluations += 1
         out.count('CL:' + r['status'])
+        out.count('CL:two recessions from the same highest level=%s' % bool(plan.get('tie_top')))
         if r['status'] != 'ok':
             continue
         case = dict(level='CL', plan=r['plan'])
@@ -128,14 +202,20 @@ def run(ctx, out):
     cases += [({}, dict(shape='empty')), ({3: [(0, 1.0)]}, dict(shape='single')),
               ({3: [(0, 1.0), (1, 2.5)]}, dict(shape='two'))]
     check_fl(cases, out, 'fl')
+    from harness.props import c08 as P8
+    rngs = C.rng_for(seed, PROP, 'series')
+    check_series([P8.gen_collection(rngs, tie=(k % 3 != 2)) for k in range(60 if tier == 'quick' else 600)], out, 'fls')
     try:
         check_cl(out, seed, ncl)
     except ImportError:
         out.notes.append('CL part unavailable (curves_common missing)')
     out.rule = ('FL: generated connected overlap graphs (chain / star / random, 2-8 intervals, levels crossed by 1..8 '
-                'intervals, dyadic crossing values with noise) through find_offsets; CL: synthetic datasets through '
-                'the CLI up to rise/recession. Non-trivial: >= 3 intervals and a level crossed by >= 3 of them; '
-                'distinct by mapping.')
+                'intervals, dyadic crossing values with noise) through find_offsets; FLS: interval collections (pieces of '
+                'one decreasing curve, 2/3 of them with two or three intervals starting from exactly the same highest '
+                'level) through get_series_time_offsets, the returned (indices, offsets, mapping) checked; CL: synthetic '
+                'datasets through the CLI up to rise/recession (1/3 with two recessions starting from exactly the same '
+                'highest level). Non-trivial: FL >= 3 intervals and a level crossed by >= 3 of them; FLS a tie for the '
+                'highest initial level among >= 3 included intervals; CL >= 3 intervals; distinct by mapping / series / intervals.')
     out.samples = [dict(level='FL', mapping={str(h): s for h, s in cases[0][0].items()})]
     out.assumptions += ['numpy.linalg.solve in binary64 agrees with the exact solution within 1e-9*(1+max|t|) on the '
                         'generated well-conditioned systems (tested, not proved)',
@@ -148,9 +228,8 @@ def replay(case, out):
     if case['level'] == 'FL':
         hm = {int(h): [(int(s), float(t)) for s, t in seq] for h, seq in case['hm'].items()}
         check_fl([(hm, dict(shape='replay'))], out, 'replay')
+    elif case['level'] == 'FLS':
+        series = [(np.array(t), np.array(H)) for t, H in case['series']]
+        check_series([(series, case['grid'], 0)], out, 'replay')
     else:
-        from harness import curves_common as CC
-        r = CC.build_from_plan(PROP, case['plan'], steps=('rise', 'recession'))
-        out.notes.append('replayed CL plan: %s' % r['status'])
-        check_cl_one = None  # CL replays re-run the whole CL oracle on that plan
-        _ = check_cl_one
+        check_cl_plans([case['plan']], out)      # CL replays re-run the whole CL oracle on that plan
